@@ -338,11 +338,11 @@ impl<'a> Gen<'a> {
         let rng = &mut *self.rng;
         let cfg = self.cfg;
         Some(match name {
-            "b_new" | "m_new" => o,
+            "b_new" | "m_new" => o.set("via", rng.below(2)),
             "b_static" => {
                 let n = pick_size(rng, cfg).min(STATIC_LEN);
                 let off = rng.range(0, STATIC_LEN - n);
-                o.set("off", off).set("n", n)
+                o.set("off", off).set("n", n).set("via", rng.below(2))
             }
             "b_from_vec" | "v_new" => {
                 let n = pick_size(rng, cfg);
@@ -429,7 +429,7 @@ impl<'a> Gen<'a> {
                 o.set("h", h).set("k", if rng.chance(1, 2) { len } else { rng.range(0, len) })
             }
             "try_into_mut" | "b_into_mut" | "b_into_vec" => o.set("h", *rng.pick(bs.get(..).filter(|v| !v.is_empty())?)),
-            "m_into_vec" | "freeze" | "m_split" | "m_clear" | "m_clone" => o.set("h", *rng.pick(ms.get(..).filter(|v| !v.is_empty())?)),
+            "m_into_vec" | "freeze" | "m_split" | "m_clear" | "m_clone" => o.set("h", *rng.pick(ms.get(..).filter(|v| !v.is_empty())?)).set("via", rng.below(2)),
             "v_into_bytes" => o.set("h", *rng.pick(vs.get(..).filter(|v| !v.is_empty())?)),
             "drop" => {
                 let all: Vec<usize> = w.slots.keys().copied().collect();
@@ -784,7 +784,8 @@ pub fn exec(w: &mut World, op: &J) -> StepOut {
     match name.as_str() {
         // ---------------------------------------------------------- constructors
         "b_new" => {
-            let b = match run(Bytes::new) {
+            let via = op.us("via");
+            let b = match run(move || if via == 1 { Bytes::default() } else { Bytes::new() }) {
                 Out::Ok(b) => b,
                 Out::Panic(m) => {
                     w.v(&["C01"], "unexpected-panic", format!("Bytes::new panicked: {}", m));
@@ -794,14 +795,16 @@ pub fn exec(w: &mut World, op: &J) -> StepOut {
             w.slots.insert(nid(uid, 0), Slot { real: Real::B(b), model: vec![], origin: Origin::Static });
         }
         "m_new" => {
-            if let Out::Ok(m) = run(BytesMut::new) {
+            let via = op.us("via");
+            if let Out::Ok(m) = run(move || if via == 1 { BytesMut::default() } else { BytesMut::new() }) {
                 w.slots.insert(nid(uid, 0), Slot { real: Real::M(m), model: vec![], origin: Origin::Heap });
             }
         }
         "b_static" => {
             let off = op.us("off").min(STATIC_LEN);
             let n = op.us("n").min(STATIC_LEN - off);
-            let out = run(|| Bytes::from_static(&STATIC_DATA[off..off + n]));
+            let via = op.us("via");
+            let out = run(|| if via == 1 { Bytes::from(&STATIC_DATA[off..off + n]) } else { Bytes::from_static(&STATIC_DATA[off..off + n]) });
             let ev = alloc::take_events();
             if let Out::Ok(b) = out {
                 if n > 0 && b.as_ptr() as usize != STATIC_DATA.as_ptr() as usize + off {
@@ -1355,7 +1358,8 @@ pub fn exec(w: &mut World, op: &J) -> StepOut {
                 Real::M(m) => m,
                 _ => unreachable!(),
             };
-            let out = run(move || m.freeze());
+            let via = op.us("via");
+            let out = run(move || if via == 1 { Bytes::from(m) } else { m.freeze() });
             let ev = alloc::take_events();
             match out {
                 Out::Ok(b) => {
@@ -1847,7 +1851,12 @@ pub fn exec(w: &mut World, op: &J) -> StepOut {
                 Real::M(m) => run(|| {
                     match mode {
                         2 => {
-                            let sl: &mut [u8] = m.as_mut();
+                            // every way to the initialised bytes as a mutable slice
+                            let sl: &mut [u8] = match pat % 3 {
+                                0 => m.as_mut(),
+                                1 => &mut m[..],
+                                _ => std::borrow::BorrowMut::borrow_mut(m),
+                            };
                             for (i, b) in sl.iter_mut().enumerate() {
                                 *b = pat ^ (i as u8);
                             }
